@@ -456,7 +456,9 @@ where
         } else {
             working
                 .iter()
-                .map(|c| N::from_real(c.re) + (-N::one()).sqrt() * N::from_real(c.im))
+                // (-N::one()).sqrt() is -i: negating 1 + 0i gives -1 - 0i, on the lower side of the
+                // branch cut. Build -1 as 0 - 1 = -1 + 0i, whose square root is +i.
+                .map(|c| N::from_real(c.re) + (N::zero() - N::one()).sqrt() * N::from_real(c.im))
                 .collect::<Vec<_>>()
         };
 
